@@ -36,6 +36,8 @@ func (g *Global) staticObligations(want map[string]bool) []*Obligation {
 			out = append(out, g.readAfter(d)...)
 		case "covers":
 			out = append(out, g.coversFields(d)...)
+		case "no_callers":
+			out = append(out, g.noCallers(d)...)
 		case "delegates":
 			out = append(out, g.delegates(d)...)
 		case "globals_readonly":
@@ -528,4 +530,45 @@ func (g *Global) delegates(d PkgDecl) []*Obligation {
 	}
 	return []*Obligation{{Name: short + "/delegates", Fn: short, Kind: "delegates", Props: d.Props, Backend: "static", Static: st, Pos: d.Pos,
 		Clause: "the functions wrapped by " + strings.TrimSpace(d.Text[:i]) + " are those of package " + target}}
+}
+
+// no_callers [C07] Thread.Uncancel
+//
+// No function of the module calls the named function or method: it is an operation reserved for
+// the host application (a program or a library routine must not be able to trigger it).
+func (g *Global) noCallers(d PkgDecl) []*Obligation {
+	target := strings.TrimSpace(d.Text)
+	short := d.Pkg[strings.LastIndex(d.Pkg, "/")+1:]
+	var bad []string
+	found := false
+	for fn := range g.allFuncs {
+		if fn.Pkg != nil && fn.Pkg.Pkg.Path() == d.Pkg && shortFnName(g.funcKey[fn]) == short+"."+target {
+			found = true
+		}
+		if fn.Blocks == nil || !inModulePkg(pkgOf(fn)) {
+			continue
+		}
+		for _, b := range fn.Blocks {
+			for _, in := range b.Instrs {
+				ci, ok := in.(ssa.CallInstruction)
+				if !ok {
+					continue
+				}
+				if callee, ok := ci.Common().Value.(*ssa.Function); ok && callee.Pkg != nil && callee.Pkg.Pkg.Path() == d.Pkg &&
+					shortFnName(g.funcKey[callee]) == short+"."+target {
+					bad = append(bad, shortFnName(g.funcKey[fn]))
+				}
+			}
+		}
+	}
+	st := "ok"
+	if !found {
+		st = "no function " + target + " in " + d.Pkg + " (contract binding lost)"
+	}
+	if len(bad) > 0 {
+		sort.Strings(bad)
+		st = target + " is called inside the module by: " + strings.Join(bad, ", ")
+	}
+	return []*Obligation{{Name: short + "." + target + "/no_callers", Fn: short + "." + target, Kind: "no_callers", Props: d.Props, Backend: "static", Static: st, Pos: d.Pos,
+		Clause: target + " is never called from inside the module"}}
 }
